@@ -140,9 +140,33 @@ func matchCompTimeRange(start, end time.Time, comp *ical.Component) (bool, error
 		return false, err
 	}
 	if rset != nil {
-		// TODO we can only set inclusive to true or false, but really the
-		// start time is inclusive while the end time is not :/
-		return len(rset.Between(start, end, true)) > 0, nil
+		// Each instance lasts as long as the first one. An instance
+		// starting at s overlaps iff s < end AND s + duration > start
+		// (s >= start for a zero-length instance).
+		var dur time.Duration
+		if comp.Name == ical.CompEvent {
+			event := ical.Event{comp}
+			eventStart, err := event.DateTimeStart(start.Location())
+			if err != nil {
+				return false, err
+			}
+			eventEnd, err := event.DateTimeEnd(start.Location())
+			if err != nil {
+				return false, err
+			}
+			if eventEnd.After(eventStart) {
+				dur = eventEnd.Sub(eventStart)
+			}
+		}
+		if start.IsZero() {
+			return !rset.Before(end, false).IsZero(), nil
+		}
+		// first instance that ends after the start of the range
+		first := rset.After(start.Add(-dur), dur == 0)
+		if first.IsZero() {
+			return false, nil
+		}
+		return end.IsZero() || first.Before(end), nil
 	}
 
 	// TODO handle more than just events
